@@ -9,6 +9,23 @@ VERIF = os.path.dirname(os.path.dirname(os.path.abspath(__file__)))
 PY = "python3-vt"
 
 CHECKS = {
+    "C01": dict(
+        script="checks/c01.py",
+        level="translation_validation",
+        text="The port and the Decay0 2020-04-20 Fortran reference (compiled from the file in /repo with gfortran) are run "
+             "side by side on the same deviate tape for every one of the 61 reference nuclides: millions of tapes, i.i.d. and "
+             "steered (each of the first <=64 cells pinned over a log-tail/quantile grid and at branching thresholds harvested "
+             "from both sources, +-1e-9; pairs of pinned cells); the comparator demands equal draw counts, species, momenta "
+             "(1e-9) and running-sum times, with only the documented admissible differences. Building blocks (fermi, beta*, "
+             "nucltransK*, PbAtShell, pair, plog69) are compared function by function on random parameters. "
+             "Decides the property for the tapes driven; reports distinct reference branch signatures reached.",
+        note="CERNLIB kernels absent from the repository (gauss, dgmlt, divdif, cgamma, ranlux) are shared by both sides; "
+             "8-digit literals of pi/2pi in the reference are widened to binary64; reference locals are zero-initialised "
+             "(-finit-local-zero) because Pa234m/Pb211 read an uninitialised level half-life; while the recorded fermi finding "
+             "stands the port's fermi is linked into the reference for event-level runs.",
+        technique="differential runtime monitor: reference program as executable oracle on replayed/steered deviate tapes",
+        design="DESIGN.md section 1.2-1.4 and section 2, C01",
+    ),
     "C16": dict(
         script="checks/c16.py",
         level="exploration",
